@@ -81,6 +81,20 @@ int main(void) {
                 bool r = qtreetbl_putobj(t, k, nk, v, nv);
                 scribble_free(k, nk); if (v) scribble_free(v, nv);
                 printf("%s", r ? "true" : "false");
+            } else if (!strcmp(op, "sput") || !strcmp(op, "sget") || !strcmp(op, "srem")) {
+                /* the string-key interface (put/putstr, get, remove): the key is a C string - the empty string included - and is stored
+                   with its terminator; sput stores the value as a string too.  Same observations as put / get / remove. */
+                size_t nk = unhex(a1, b1); char *k = dupbuf(b1, nk + 1); k[nk] = 0;
+                if (op[1] == 'p') {
+                    size_t nv = unhex(a2, b2); char *v = dupbuf(b2, nv + 1); v[nv] = 0;
+                    bool r = qtreetbl_putstr(t, k, v); scribble_free(v, nv + 1);
+                    printf("%s", r ? "true" : "false");
+                } else if (op[1] == 'g') {
+                    size_t ds = 12345; ncmp_calls = 0; errno = 0; void *d = qtreetbl_get(t, k, &ds, true); int e = errno; long c = ncmp_calls;
+                    if (d) { puthex(stdout, d, ds); scribble_free(d, ds); } else printf("%s", (e == ENOENT || e == EINVAL) ? "none" : "-");
+                    printf(" cmps=%ld", c);
+                } else printf("%s", qtreetbl_remove(t, k) ? "true" : "false");
+                scribble_free(k, nk + 1);
             } else if (!strcmp(op, "putself")) {
                 /* putself <key> <off>:<len>:<mode>: the value (and with mode 1 the key) handed to put() are the table's own buffers,
                    as getobj(newmem=false) returns them: value = stored value[off, off+len) (len -1: to the end) */
